@@ -96,6 +96,30 @@ PROPS["C17"] = {
     "assumptions": ["only forward clock steps", "non-negative increments"],
 }
 
+RR_NOTE = ("trusted: simrt, instrumenter, rapid, porcupine; a server's identity is (scheme, host, path) as in the balancer's own comparison - URLs differing only in userinfo or query are the same server")
+PROPS["C02"] = {
+    "harness": "rrsim", "test": "TestC02", "quick_s": 30, "thorough_s": 900, "batch": 50,
+    "rule": "one evaluation = one simulated run against the real RoundRobin, directly or through a Rebalancer whose meters are never ready, with or without sticky sessions: 3-40 operations drawn from upsert (new / existing / same server in another spelling / with and without weight), "
+            "remove (member / unknown), NextServer, ServeHTTP (downstream handler optionally rewrites the URL it was handed in one of six ways; optionally with a raw affinity cookie), Servers, ServerWeight over a 13-URL universe; "
+            "coarse mode: reference set model compared after every operation (membership, URL strings, weights, selection in positive-weight members, error for unservable pool, remove-unknown fails, added server selected within one rotation); "
+            "fine mode: operations run as tasks interleaved at mutex granularity, invoke/return history checked with porcupine; non-trivial = at least one successful removal among >= 4 operations, or a fine-mode run with task switches; distinct = run digest",
+    "technique": "deterministic simulation: seeded schedules of administration calls racing with requests; executable reference set model checked operation by operation (coarse) and porcupine linearizability of the recorded history (fine)",
+    "level_text": "seeded search over operation histories, URL spellings, handler rewrites and interleavings of the real balancer/rebalancer; sampled, not exhaustive; failures minimised and replayable",
+    "level_note": RR_NOTE,
+    "assumptions": ["a new server added with an explicit weight 0 is not generated (statement silent)", "fine-mode histories are capped at 28 operations for the linearizability check"],
+}
+
+PROPS["C01"] = {
+    "harness": "rrsim", "test": "TestC01", "quick_s": 30, "thorough_s": 900, "batch": 30,
+    "rule": "one evaluation = one simulated run: 0-20 prior pool changes and selections, then a frozen pool of 1-6 servers with a drawn weight shape (equal, common factor, zeros, 1 vs 200-1500, primes, random), "
+            "then 1-6 caller tasks making m*W+r selections through NextServer or ServeHTTP (directly or through a never-adjusting Rebalancer), in fine mode interleaved at mutex granularity; the combined sequence is ordered by the "
+            "critical section of each selection; oracle = exact count of every server in every window of W consecutive selections; non-trivial = at least W selections over at least two servers; distinct = run digest",
+    "technique": "deterministic simulation: seeded interleavings of concurrent callers at mutex granularity; exact sliding-window share oracle over the selection sequence ordered by critical section",
+    "level_text": "seeded search over weight vectors, prior histories and caller interleavings of the real balancer; sampled, not exhaustive",
+    "level_note": RR_NOTE + "; the order of concurrent selections is the order of their critical sections, recorded by the scheduler",
+    "assumptions": ["at most 6000 selections per run"],
+}
+
 PENDING = "check not built yet in this session (planned, see DESIGN.md section 4); not claimed until its harness exists"
 NOT_APPLICABLE = {pid: PENDING for pid in ["C%02d" % i for i in range(1, 21)]}
 NOT_APPLICABLE["C19"] = ("pure function of one request's RemoteAddr/Host/header to a token: no schedule, clock, fault, I/O or multi-party behaviour for a "
